@@ -276,3 +276,10 @@ def r10(c):
         c.ob('callback-owned/%s' % API_METHOD[v], ok, 'every path through CallbackSession::%s first puts the callback into a promise (no early return can drop a bare callback)' % API_METHOD[v], det, loc_of(b))
         n += 1 if ok else 0
     c.exact('CallbackSession methods', n, 8)
+
+
+@rule('C10', 'R10.11', 'a late reply cannot complete another request: consecutive requests never share a transaction id (the counter advances by one and wraps, it does not stick) and a frame with a foreign id is skipped (C11/R11.2, R11.5)')
+def r11(c):
+    from rules import c11
+    c11.r2(c)
+    c11.r5(c)
